@@ -221,6 +221,35 @@ func runC06(c *core.Ctx) {
 		if name == "Arm" && ok && !whole {
 			ok = fields["armed"] == "true" && fields["salt"] == "p1" && fields["resumeFrameIdx"] == "p2"
 		}
+		if ok && !whole {
+			// … on every path: each field is stored before every return, and (Arm) every store carries the argument
+			want := map[string]string{"armed": "true", "salt": "p1", "resumeFrameIdx": "p2"}
+			isRet := func(in ssa.Instruction) bool { _, isR := in.(*ssa.Return); return isR }
+			for f := range fields {
+				field := f
+				gate := func(in ssa.Instruction) bool {
+					st, isS := in.(*ssa.Store)
+					if !isS {
+						return false
+					}
+					t, ff, _, isF := an.FieldOf(st.Addr)
+					return isF && t == "WALResetWatch" && ff == field && (name != "Arm" || an.CanonPos(st.Val) == want[field])
+				}
+				if len(an.Ungated(an.CutSpec{Fn: fn, GateInstr: gate, Sink: isRet})) > 0 {
+					ok = false
+				}
+				// no store of a different value anywhere
+				if name == "Arm" {
+					an.Instrs(fn, func(in ssa.Instruction) {
+						if st, isS := in.(*ssa.Store); isS {
+							if t, ff, _, isF := an.FieldOf(st.Addr); isF && t == "WALResetWatch" && ff == field && an.CanonPos(st.Val) != want[field] {
+								ok = false
+							}
+						}
+					})
+				}
+			}
+		}
 		if name == "Arm" && whole {
 			// the composite stored carries armed=true and both parameters
 			okA := false
@@ -236,7 +265,24 @@ func runC06(c *core.Ctx) {
 			okA = fields["armed"] == "true" && fields["salt"] == "p1" && fields["resumeFrameIdx"] == "p2"
 			ok = okA
 		}
-		c.Result(ok, "C06.b", "DECIDE", "(*WALResetWatch)."+name+":overwrites-all", c.P.Pos(fn.Pos()), name+" replaces the whole watch state", name+" does not set every field of the watch (a stale salt or resume index could survive)", nil)
+		if whole {
+			// the whole-struct store lies on every path to a return, and nothing updates a single field of the receiver
+			wholeStore := func(in ssa.Instruction) bool {
+				st, isS := in.(*ssa.Store)
+				return isS && isParamN(fn, 0)(st.Addr)
+			}
+			if len(an.Ungated(an.CutSpec{Fn: fn, GateInstr: wholeStore, Sink: func(in ssa.Instruction) bool { _, isR := in.(*ssa.Return); return isR }})) > 0 {
+				ok = false
+			}
+			an.Instrs(fn, func(in ssa.Instruction) {
+				if st, isS := in.(*ssa.Store); isS {
+					if t, _, base, isF := an.FieldOf(st.Addr); isF && t == "WALResetWatch" && isParamN(fn, 0)(base) {
+						ok = false
+					}
+				}
+			})
+		}
+		c.Result(ok, "C06.b", "DECIDE", "(*WALResetWatch)."+name+":overwrites-all", c.P.Pos(fn.Pos()), name+" replaces the whole watch state on every path", name+" does not, on every path, set every field of the watch to its argument (a stale salt or a resume index that is not the number of frames already captured survives: the next segment starts at the wrong frame and acknowledged writes are missing from base+segments)", nil)
 	}
 
 	// C06.c: shared with C04.d
